@@ -15,6 +15,7 @@ ASSUME = [
     "stub: std::rt::thread_cleanup = no-op (Kani ICE workaround); alloc::fmt::format returns an empty String (error text is not checked, error VALUES are)",
     "stub: core::arch::x86_64::{_addcarry_u64,_subborrow_u64} replaced by their arithmetic definition (Kani does not model the LLVM intrinsic)",
     "model: num-bigint's `BigInt += isize` and `BigInt *= isize` are replaced by exact i128 arithmetic for magnitudes < 2^126 (num-bigint is a dependency, not the subject)",
+    "num_neg_rational only: `Ratio::new` skips the reduction (the operands are already in lowest terms with a positive denominator)",
     "feature set std,sync,biased,imbl,rooted-instructions (no jit2/dylibs); results are IntV/BigNum values that are mem::forgotten (drop glue is not the subject)",
     "Kani checks overflow as the dev/test profile does; release-profile wrap-around is covered by the value oracle",
 ]
@@ -29,10 +30,14 @@ def plan(tier):
         {"h": "num_abs_i", "sym": "x: isize"},
         {"h": "num_add_ii", "sym": SYM2},
         {"h": "num_even_odd_i", "sym": "x: isize"},
+        {"h": "num_add_big_i", "sym": "big integer a just beyond +-2^63, y: isize, either argument order"},
+        {"h": "num_neg_rational", "sym": "n/3 for every i32 n not divisible by 3"},
+        {"h": "num_int_float_equality", "sym": "i: isize, f: finite f64"},
     ]
     t = [
         {"h": "num_add_fallible_ii", "sym": SYM2},
         {"h": "num_sub_ii", "sym": SYM2},
+        {"h": "num_sub_big_i", "sym": "big integer a, y: isize"},
         {"h": "num_mul_ii_nowrap", "sym": SYM2},
         {"h": "num_mul_ii_small", "sym": "x: isize, |y| <= 2^15"},
         {"h": "num_truncate_quotient_ii", "sym": SYM2},
@@ -42,7 +47,11 @@ def plan(tier):
         {"h": "num_euclidean_quotient_ii", "sym": SYM2},
         {"h": "num_euclidean_remainder_ii", "sym": SYM2},
         {"h": "num_exact_integer_sqrt_small", "sym": "0 <= x < 2^12"},
+        {"h": "num_expt_minus_3", "sym": "|l| <= 12, exponent -3"},
+        {"h": "num_expt_minus_2", "sym": "|l| <= 12, exponent -2"},
     ]
+    # not covered (measured): num_floor_remainder_i_big (real num-bigint division: solver out of memory),
+    # 64x64-bit product equality, gcd/lcm, number<->string
     return q + (t if tier == "thorough" else [])
 
 
